@@ -72,7 +72,55 @@ static void* body(void* p) {
   return 0;
 }
 
+// -Dmt=1 (N=2): the polled-for fiber X is woken out of a mutex wait queue by the poller while it
+// may still be in the middle of switching out on the OTHER kernel thread, and that thread is then
+// kept busy by a fiber that does not yield (so nobody can steal X): the poller's own
+// fiber_yield calls must get X run - "yield-based polling loops cannot starve the very fiber
+// they wait for" with N kernel threads.
+static fiber_mutex_t mtm;
+static int g_xstarted, g_xdone;
+GHOST static void xstarted(void) { g_xstarted = 1; }
+GHOST static int is_xstarted(void) { return g_xstarted; }
+GHOST static void xdone(void) { g_xdone = 1; }
+GHOST static int is_xdone(void) { return g_xdone; }
+static void* mt_x(void* p) {
+  xstarted();
+  fiber_mutex_lock(&mtm);
+  fiber_mutex_unlock(&mtm);
+  xdone();
+  return 0;
+}
+static void* mt_busy(void* p) {
+  // occupies kernel thread 1 without ever yielding to another fiber; on thread 0 it would sit on
+  // top of the poller's own run queue, so there it just ends
+  if (fmc_tid() == 1)
+    while (!is_xdone()) fmc_yield();
+  return 0;
+}
+static int mt_main(void) {
+  fiber_mutex_init(&mtm);
+  rt_start();
+  fmc_begin();
+  fiber_mutex_lock(&mtm);
+  fiber_t* x = fiber_create(STK, mt_x, 0);
+  fiber_t* b = fiber_create(STK, mt_busy, 0);
+  while (!is_xstarted()) fmc_yield();  // the other kernel thread steals X (main never switched so far)
+  fiber_mutex_unlock(&mtm);            // wakes X if it already queued up - possibly mid-switch
+  int polls = 0;
+  while (!is_xdone()) {
+    fiber_yield();
+    if (++polls > 300)
+      fmc_fail("yield fairness (2 kernel threads): the poller called fiber_yield %d times and the fiber it woke (ready in its own run queue, the other thread busy) still has not run", polls);
+  }
+  fiber_join(x, 0);
+  fiber_join(b, 0);
+  fmc_obs(polls > 8 ? 8 : polls);
+  rt_finish();
+  return 0;
+}
+
 int harness_main(void) {
+  if (fmc_param("mt", 0)) return mt_main();
   nf = fmc_param("n", 3);
   Y = fmc_param("Y", 6);
   chain = fmc_param("chain", 0);
